@@ -3,8 +3,9 @@
    ENCODED fragment, executed on the concretised stack, does what the fragment's base type
    promises, for every stack below the consumed prefix and every alt stack; the abstract
    result (Satisfied / Dissatisfied) describes the concrete value left.
-   Side conditions: the input is not final (BIP65) and the transaction version is >= 2
-   (BIP112) -- without them the statement is false (InterpRefuted.v).
+   No side condition on the transaction environment: since the fixes 1fe09c47 / 9d1ff3e4 the
+   evaluator itself refuses `after` under a final nSequence (BIP65) and `older` under a
+   transaction version below 2 (BIP112).
    Covered: every fragment except sortedmulti / sortedmulti_a, which the decoder never produces
    and which the interpreter would evaluate with the keys unsorted (see [icover]). *)
 From Verif Require Import Exec Ser Ast Types TypeCheck ExecLemmas ExecTraceLemmas TheoremA InterpModel InterpRefine.
@@ -20,10 +21,6 @@ Section InterpSound.
   Hypothesis Hnum5 : forall z, (0 <= z < 2147483648)%Z -> num_operand 5 (num_encode z) = Some z.
   Hypothesis Htruthy : forall z, (0 < z < 2147483648)%Z -> truthy (num_encode z) = true.
   Hypothesis Htruthy_num : forall v z, num_operand 4 v = Some z -> truthy v = negb (z =? 0)%Z.
-
-  (* the two rules the interpreter does not know about *)
-  Hypothesis Hseq : e_sequence e <> SEQ_FINAL.
-  Hypothesis Hver : 2 <= e_txversion e.
 
   (* keys: the script's keys are acceptable encodings; a pushed key the interpreter can parse is *)
   Hypothesis Hkey : forall k, e_keyok e (kb ke k) = true.
@@ -199,6 +196,7 @@ Section InterpSound.
   Lemma s_after t : iwf (MAfter t) -> sound (MAfter t) BB false IZero.
   Proof.
     intros Hwf st st' cs _ H. cbn in Hwf. cbn [ieval] in H. unfold evaluate_after in H.
+    destruct (N.eqb_spec (e_sequence e) SEQ_FINAL) as [Hfin|Hseq]; cbn in H; [discriminate|].
     destruct (Bool.eqb (t <? LOCKTIME_THRESHOLD) (e_locktime e <? LOCKTIME_THRESHOLD)) eqn:Eu; cbn in H; [|discriminate].
     destruct (t <=? e_locktime e) eqn:El; cbn in H; [|discriminate]. inversion H; subst.
     exists [], st. repeat split. exists ESat. split; [reflexivity|]. intros rest al.
@@ -217,6 +215,7 @@ Section InterpSound.
     intros Hwf st st' cs _ H. cbn in Hwf. cbn [ieval] in H.
     destruct (negb (N.land t SEQ_DISABLE =? 0)) eqn:Ed; [discriminate|].
     unfold evaluate_older in H.
+    destruct (N.ltb_spec (e_txversion e) 2) as [Hlt|Hver]; cbn in H; [discriminate|].
     destruct (negb (N.land (e_sequence e) SEQ_DISABLE =? 0)) eqn:Es; cbn in H; [discriminate|].
     destruct ((N.land t SEQ_TYPE =? N.land (e_sequence e) SEQ_TYPE) &&
               (N.land t SEQ_MASK <=? N.land (e_sequence e) SEQ_MASK)) eqn:Ec; cbn in H; [|discriminate].
@@ -1318,6 +1317,7 @@ Section InterpSound.
   Lemma t_after t : iwf (MAfter t) -> tsound (MAfter t) BB false.
   Proof.
     intros Hwf st st' cs _ H w r Hst [x0 [-> _]] rest al. cbn in Hwf. cbn [ieval] in H. unfold evaluate_after in H.
+    destruct (e_sequence e =? SEQ_FINAL); cbn in H; [discriminate|].
     destruct (Bool.eqb _ _); cbn in H; [|discriminate]. destruct (t <=? e_locktime e); cbn in H; [|discriminate].
     assert (Er : st = r) by congruence. assert (Ec : cs = [CsAfter t]) by congruence. subst cs.
     rewrite Er in Hst. apply (app_same_tail [] w) in Hst. subst w.
@@ -1329,7 +1329,8 @@ Section InterpSound.
   Proof.
     intros Hwf st st' cs _ H w r Hst [x0 [-> _]] rest al. cbn in Hwf. cbn [ieval] in H.
     destruct (negb (N.land t SEQ_DISABLE =? 0)) eqn:Ed; [discriminate|]. apply negb_false_iff in Ed.
-    unfold evaluate_older in H. destruct (negb _); cbn in H; [discriminate|]. destruct (_ && _); cbn in H; [|discriminate].
+    unfold evaluate_older in H. destruct (e_txversion e <? 2); cbn in H; [discriminate|].
+    destruct (negb _); cbn in H; [discriminate|]. destruct (_ && _); cbn in H; [|discriminate].
     assert (Er : st = r) by congruence. assert (Ec : cs = [CsOlder t]) by congruence. subst cs.
     rewrite Er in Hst. apply (app_same_tail [] w) in Hst. subst w.
     cbn [enc C map app]. rewrite tr_script_cons, tr_push_int, exec_push_int'. cbn [app stk alt tr_script tr_instr op_events].
